@@ -484,3 +484,10 @@ func Main(m *testing.M) {
 	flushStats()
 	os.Exit(code)
 }
+
+// ReportFuzz reports a failure found by a hand-written native fuzz target
+// (one that decodes the fuzzer's bytes itself instead of going through rapid).
+func ReportFuzz(t *testing.T, sub string, c any, f *Failure) {
+	path := saveFailure(sub, render(c), f)
+	t.Fatalf("VERIF-FAIL sub=%s sig=%s replay=%s\n%s", sub, f.Sig, path, f.Msg)
+}
